@@ -23,6 +23,7 @@ Thread == /\ IsEv("thread") /\ UNCHANGED <<tix, ncs>>
           /\ E.digest = E.alone                         \* same results as when it runs alone
           /\ E.ended < E.joined                         \* join returned after the function had finished
           /\ E.seen = E.cell                            \* ... and its effects were visible to the joiner
+          /\ E.handoff = 1                              \* what the parent put into the thread's storage before the start was there, intact
           /\ E.liveatjoin = 0                           \* ... including its teardown: everything it still managed is finalised
 CS == /\ IsEv("cs")
       /\ E.tout = E.tin + 1                             \* nobody else was inside between entry and exit
